@@ -38,6 +38,49 @@ class Runaway(Exception):
     """more exchanges than any bounded operation could need"""
 
 
+class SimClock(object):
+    """simulated time: stands in for the `time` module of the tag modules (and, while an operation runs, for
+    time.time / time.monotonic / time.sleep globally).  The fake frontend advances it by the granted timeout on a
+    timeout and by the card's response time otherwise."""
+
+    def __init__(self):
+        self.now = 1000.0
+
+    def time(self):
+        return self.now
+
+    monotonic = perf_counter = time
+
+    def sleep(self, s):
+        self.now += max(0.0, s)
+
+    def __getattr__(self, name):       # strftime etc.
+        import time as _t
+        return getattr(_t, name)
+
+    def __enter__(self):
+        import time as _t
+        self.saved = (_t.time, _t.monotonic, _t.sleep)
+        _t.time, _t.monotonic, _t.sleep = self.time, self.monotonic, self.sleep
+        return self
+
+    def __exit__(self, *a):
+        import time as _t
+        _t.time, _t.monotonic, _t.sleep = self.saved
+
+
+CLOCK = SimClock()
+
+
+def install_clock():
+    """replace the `time` module object of every nfc.tag module that imported it"""
+    import sys
+    import time as _t
+    for name, mod in list(sys.modules.items()):
+        if name.startswith('nfc.tag') and mod is not None and getattr(mod, 'time', None) is _t:
+            mod.time = CLOCK
+
+
 class FaultClf(object):
     def __init__(self, inner, limit=20000):
         self.inner = inner
@@ -49,12 +92,21 @@ class FaultClf(object):
         self.calls = []           # per tag-level command, filled by hook_commands
         self.limit = limit
         self.senses = 0
+        self.plan2 = None         # a second burst (same format), at an absolute exchange index
+        self.slow = 0.05          # response time of the card as a fraction of the granted timeout
+        self.longest = 0.0        # longest simulated duration of one exchange
+
+    def tick(self, timeout, answered):
+        dt = (timeout or 0.0) * (1.0 if not answered else self.slow)
+        CLOCK.now += dt
+        self.longest = max(self.longest, dt)
 
     def __getattr__(self, name):          # max_send_data_size, tag, ...
         return getattr(self.inner, name)
 
-    def arm(self, plan=None):
+    def arm(self, plan=None, plan2=None):
         self.plan = plan
+        self.plan2 = plan2
         self.n = 0
         self.trace = []
         self.delivered = []
@@ -71,8 +123,12 @@ class FaultClf(object):
         if self.n > self.limit:
             raise Runaway()
         cmd = bytes(data)
-        if self.plan is not None and self.plan[0] <= i < self.plan[0] + self.plan[2]:
-            kind, mode = self.plan[1], self.plan[3]
+        hit = None
+        for pl in (self.plan, self.plan2):
+            if pl is not None and pl[0] <= i < pl[0] + pl[2]:
+                hit = pl
+        if hit is not None:
+            kind, mode = hit[1], hit[3]
             lost = None
             if mode == 'rsp':
                 try:
@@ -81,13 +137,16 @@ class FaultClf(object):
                     pass
                 self.delivered.append((cmd, False))
             self.trace.append((cmd, kind if mode == 'rsp' else kind.lower(), lost))
+            self.tick(timeout, kind != 'T')
             raise KINDS[kind]("injected")
         try:
             rsp = self.inner.exchange(data, timeout)
         except nfc.clf.TimeoutError:
             self.delivered.append((cmd, False))
             self.trace.append((cmd, 's', None))
+            self.tick(timeout, False)
             raise
+        self.tick(timeout, True)
         self.delivered.append((cmd, True))
         self.trace.append((cmd, 'A', bytes(rsp)))
         return rsp
@@ -349,12 +408,12 @@ class T4IsoClf(object):
     max_send_data_size = 256
     max_recv_data_size = 256
 
-    def __init__(self, t4card, fwi=8, fsci=8, cmiu=253):
+    def __init__(self, t4card, fwi=8, fsci=8, cmiu=253, wtx=()):
         self.t4 = T4Session(t4card)
         self.fwi = fwi
         self.rats = bytearray([0x06, 0x75, 0x77, (fwi << 4) | 1, 0x02, 0x80])
         self.rats[1] = 0x70 | fsci
-        self.picc = Card(cfsc=(16, 24, 32, 40, 48, 64, 96, 128, 256)[fsci], cmiu=cmiu, app=self._app)
+        self.picc = Card(cfsc=(16, 24, 32, 40, 48, 64, 96, 128, 256)[fsci], cmiu=cmiu, app=self._app, plan=wtx)
         self.activated = False
 
     def _app(self, n, apdu):
@@ -375,9 +434,9 @@ class T4IsoClf(object):
 
 
 class T4World(World):
-    def __init__(self, card, fwi=8, fsci=8, cmiu=253):
+    def __init__(self, card, fwi=8, fsci=8, cmiu=253, wtx=()):
         self.card = card
-        self.inner = T4IsoClf(card, fwi=fwi, fsci=fsci, cmiu=cmiu)
+        self.inner = T4IsoClf(card, fwi=fwi, fsci=fsci, cmiu=cmiu, wtx=wtx)
         self.clf = FaultClf(self.inner)
         t = nfc.clf.RemoteTarget("106A")
         t.sens_res = bytearray.fromhex("4403")
